@@ -5,6 +5,7 @@ use crate::oracle::{self, Iso};
 use crate::robots;
 use crate::util::*;
 use rand::Rng;
+use rs_opw_kinematics::constraints::Constraints;
 use rs_opw_kinematics::kinematic_traits::Kinematics;
 use rs_opw_kinematics::kinematics_impl::OPWKinematics;
 use rs_opw_kinematics::parameters::opw_kinematics::Parameters;
@@ -76,9 +77,17 @@ pub fn replay(input: &str, output: &str) {
             }
             // a robot declared 5-DOF has the same forward kinematics (joint 6 is simply not solved for)
             if (id + v) % 4 == 1 { p.dof = 5; }
+            // every other odd variant: the offsets cancel the lattice angles of some joints, so that the caller's
+            // joint value is exactly zero while the effective angle is not
+            if v % 4 == 1 {
+                for i in 0..6 { if (id >> i) & 1 == 1 { p.offsets[i] = -lattice::angle(e[i]); } }
+            }
             let q = joints_for(&p, &e, &turns);
             let ctx = json!({"params": robots::params_json(&p), "q": q, "e": e});
-            let robot = OPWKinematics::new(p);
+            // both constructors (limits do not take part in forward kinematics)
+            let robot = if (id + v) % 2 == 0 { OPWKinematics::new(p) } else {
+                OPWKinematics::new_with_constraints(p, Constraints::new([-0.5, -1.0, 0.2, 2.0, -3.0, 1.0], [0.5, 1.5, 0.1, 2.0, 3.0, -1.0], 0.3))
+            };
             // the float oracle against the exact model (oracle conformance)
             let oc = oracle::chain(&p, &q);
             check_poses(&mut out, "ORACLE", class, &oc, &want, &ctx, TOL);
@@ -193,15 +202,27 @@ pub fn record(output: &str) {
     let mut r = rng(33);
     let n = if thorough() { 200_000 } else { 20_000 };
     let nm = |x: f64| -> i64 { if x.is_finite() { (x * 1e9).round().min(2e9) as i64 } else { 2_000_000_000 } };
+    let mut last_q = [0.0; 6];
+    let mut last_p: Option<Parameters> = None;
     for k in 0..n {
         let class = if k % 13 == 12 { robots::FK_ONLY_CLASSES[(k / 13) % 2] } else { robots::GEOMETRY_CLASSES[k % robots::GEOMETRY_CLASSES.len()] };
         let p = if k % 11 == 10 { robots::named_robots()[k % 6].1 } else { robots::geometry(class, &mut r) };
         let oc = ["zero", "quarter", "random"][k % 3];
         let mut p = robots::convention(p, (k / 3) % 64, oc, &mut r);
         if k % 5 == 4 { p.dof = 5; }
+        // one robot in five is a sibling of the preceding one (part of the description shared)
+        if k % 5 == 3 { if let Some(pp) = &last_p { let dof = p.dof; p = robots::sibling(pp, &mut r); p.dof = dof; } }
         let span = [1.0, 3.2, 6.3, 40.0][k % 4];
-        let q: [f64; 6] = std::array::from_fn(|_| r.gen_range(-span..span));
-        let robot = OPWKinematics::new(p);
+        let mut q: [f64; 6] = std::array::from_fn(|_| r.gen_range(-span..span));
+        // joint values that are exactly zero (whatever the offsets), and the very joint vector of the preceding call
+        // given to the next robot (the solvers of consecutive rounds live at the same address)
+        if k % 7 == 5 { for i in 0..6 { if r.gen_bool(0.4) { q[i] = 0.0; } } }
+        if k % 6 == 4 { q = last_q; }
+        last_q = q;
+        last_p = Some(p);
+        let robot = if k % 2 == 0 { OPWKinematics::new(p) } else {
+            OPWKinematics::new_with_constraints(p, Constraints::new([-0.5, -1.0, 0.2, 2.0, -3.0, 1.0], [0.5, 1.5, 0.1, 2.0, 3.0, -1.0], 0.3))
+        };
         let want = oracle::chain(&p, &q);
         let res = guarded(|| (robot.forward(&q), robot.forward_with_joint_poses(&q)));
         match res {
